@@ -113,7 +113,7 @@ func genC10(r *sim.Rng, tier string, idx int) *GCase {
 			name = base + sim.Pick(r, []string{".xz", ".lzma", ".txz", ".tlz"})
 		}
 		c.Files = append(c.Files, genPlainFile(r, name, max))
-		if r.Chance(1, 5) {
+		if r.Chance(1, 12) {
 			c.Files[0].Mode &^= 0o400 // unreadable
 		}
 	} else {
@@ -463,6 +463,7 @@ func runC10(c *GCase, x *sim.Ctx) *sim.Violation {
 		x.Ev("%s", l)
 	}
 	x.Ev("exit=%d", base.Exit)
+	x.Shape(strings.Join(kinds, ",") + fmt.Sprintf(":exit%d", base.Exit))
 	x.Count("scenario."+j.scClass, 1)
 	if v := j.judge(base, simos.Plan{}, "none"); v != nil {
 		return v
